@@ -272,6 +272,15 @@ def _act1(ctx, name, action, where):
                         if id(sch) not in inside and any(x == m for x in (sch.doers or [])):
                             return True
                 return False
+            # ... nor a doer that another scheduler (running or not) still lists: a doer is given to one scheduler; handing it
+            # to a second one while the first still lists it makes every later attribution of its lifecycles ambiguous
+            def _listed_elsewhere(o):
+                scheds = [ctx.doist] + [x for x in ctx.by_name.values() if getattr(x, "doers", None) is not None]
+                return any(sch is not host and any(x == o for x in (sch.doers or [])) for sch in scheds)
+            keep = [o for o in objs if o in host.doers or not _listed_elsewhere(o)]
+            if len(keep) != len(objs):
+                tr.skipped.append(("extend-listed-by-another-scheduler", name))
+            objs = keep
             keep = [o for o in objs if o in host.doers or not _shared(o)]
             if len(keep) != len(objs):
                 tr.skipped.append(("extend-dodoer-with-shared-member", name))
